@@ -296,7 +296,28 @@ func (p *c01) RunCase(ctx *runner.Ctx) runner.CaseResult {
 			op = adapt.Op{Kind: adapt.OpPut, Table: spec.Name, Item: it}
 		case 2:
 			op = mon.SetUpdate(spec.Name, k, mon.Pick(r, mon.AttrNames[1:4]), mon.Value(r, 2, opts))
-			if r.Intn(4) == 0 {
+			if r.Intn(5) == 0 {
+				// one value written over its NEAR neighbour (a different value that a careless "did it change?" test takes
+				// for the same one): two consecutive writes to one attribute of one item, the second one must be stored
+				pr := mon.Pick(r, mon.NearValues)
+				first, second := pr[r.Intn(2)], pr[0]
+				if val.Equal(first, second) {
+					second = pr[1]
+				}
+				w := func(v val.V) adapt.Op {
+					if r.Intn(4) == 0 {
+						it := k.Clone()
+						it["near"] = v
+						return adapt.Op{Kind: adapt.OpPut, Table: spec.Name, Item: it}
+					}
+					return mon.SetUpdate(spec.Name, k, "near", v)
+				}
+				ops = append(ops, w(first))
+				kinds = append(kinds, fmt.Sprintf("near%d", ki))
+				dec = append(dec, [2]int{t, ki})
+				op = w(second)
+				x.r.Counters["near_value_overwrites"]++
+			} else if r.Intn(4) == 0 {
 				// grow (or create) a list: the appended elements include NULL, false and the empty string - they are
 				// elements like any other
 				u := &refmodel.Update{Actions: []refmodel.Action{{Kind: "SET", Path: refmodel.P("lg"), RHS: &refmodel.UExpr{Kind: "append", Kids: []*refmodel.UExpr{
